@@ -456,6 +456,9 @@ pub fn run(ctx: &'static Ctx) -> (&'static str, Value, Vec<&'static str>) {
             let n = short_read_check(ctx, "volume::Header::deserialize", &bytes, true, |r: &mut SplitReader| Header::deserialize(r).ok().map(|h| (h.tape_filename(), h.extension_number(), h.icao_of_radar(), h.date_time())), |shape| json!({"op": "short_read", "header_plan": hp, "boundaries": shape.0, "max_chunk": shape.1}));
             s3.evaluations += n;
             s3.count("short_read_shapes", n);
+            let n = crate::guard::two_actor_check(ctx, "volume::Header::deserialize", &bytes, 32, |r: &mut SplitReader| Header::deserialize(r).ok().map(|h| (h.tape_filename(), h.extension_number(), h.icao_of_radar(), h.date_time())), |mode, k| json!({"op": "short_read", "header_plan": hp, "mode": mode, "read_call": k}));
+            s3.evaluations += n;
+            s3.count("two_actor_schedules", n);
         }
     }
     let stats = s1.merge(s2).merge(s3);
